@@ -69,3 +69,18 @@ def obs_base_after_derive(c, base=None, derived=None, precision='float64'):
     except Exception:
         pass
     return obs_yaml(None, base, precision)
+
+
+def obs_op(c, op=None):
+    """repeat one compile/run call of a history on a fresh template in this pristine process"""
+    kw = dict(op['kw'])
+    kw.setdefault('verbose', False)
+    try:
+        if op['op'] == 'run':
+            T, dt, outputs = kw.pop('T'), kw.pop('dt'), kw.pop('outputs')
+            c.run(T, dt, outputs=outputs, **kw)
+        else:
+            getattr(c, op.get('api', 'get_run_func'))('vf', kw.pop('step_size', 1e-3), **kw)
+        return {'status': 'ok'}
+    except Exception as e:
+        return observe.raised(e)
